@@ -7,8 +7,8 @@ with Go's `container/heap` (`Model/GoHeap.lean`) at exactly the call sites of th
 
 * `operation.enqueue`                         ↦ `enqueue`      (`heap.Push`, `updateFirstOperationPriority`, `heapPushOrFix`)
 * `operation.removeQueuedFromInvocation`      ↦ `removeQueued` (`heap.Remove`, `updateFirstOperationPriority`, `heapRemoveOrFix`)
-* `invocation.incrementExecutingWorkersCount` ↦ `incrementExecutingWorkersCount` (`heapMaybeFix` ×2)
-* `invocation.decrementExecutingWorkersCount` ↦ `decrementExecutingWorkersCount` (`heapMaybeFix` ×2)
+* `invocation.incrementExecutingWorkersCount` ↦ `incrementExecutingWorkersCount` (`heapMaybeFix`, `updateFirstOperationPriority`, `heapMaybeFix`)
+* `invocation.decrementExecutingWorkersCount` ↦ `decrementExecutingWorkersCount` (the same)
   (both are instances of `rekey`: any change of the keys `executingWorkers`, `lastOperationStarted`,
   `lastOperationCompletion` of the invocations on a path, bottom-up, each followed by the two fixes
   in the parent)
@@ -101,23 +101,27 @@ def removeQueued (path : List Nat) (idx : Nat) : Inv → Inv :=
 
 /-! ### `increment/decrementExecutingWorkersCount` (lines 1940-1975) -/
 
-/-- One iteration seen from the parent: the child's keys have changed (`c'`), both heaps of the
-parent that may contain it are fixed, then the parent's own keys change (`g`). -/
-def upRekey (g : Inv → Inv) (P c' : Inv) : Inv :=
+/-- One iteration seen from the parent: the child's keys have changed (`c'`), the parent's
+`queuedChildren` heap is fixed, the parent's cached priority is refreshed (fix ca91fdf; skipped
+with `legacyNoRefresh`, the code before that fix), the parent's `idleSynchronizingWorkersChildren`
+heap is fixed, then the parent's own keys change (`g`). -/
+def upRekey (legacyNoRefresh : Bool) (g : Inv → Inv) (P c' : Inv) : Inv :=
   let P' := storeKid P c'
-  g ((P'.setQueued (maybeFix (qLess P'.kids) P.queued.toArray (refIndex P.queued c'.key)).toList).setParkedKids
-    (maybeFix (iLess P'.kids) P.parkedKids.toArray (refIndex P.parkedKids c'.key)).toList)
+  let P1 := P'.setQueued (maybeFix (qLess P'.kids) P.queued.toArray (refIndex P.queued c'.key)).toList
+  let P2 := if legacyNoRefresh then P1 else updateFirstOperationPriority P1
+  g (P2.setParkedKids (maybeFix (iLess P'.kids) P.parkedKids.toArray (refIndex P.parkedKids c'.key)).toList)
 
-def rekey (g : Inv → Inv) (path : List Nat) : Inv → Inv := updatePath g (upRekey g) path
+def rekey (legacyNoRefresh : Bool) (g : Inv → Inv) (path : List Nat) : Inv → Inv :=
+  updatePath g (upRekey legacyNoRefresh g) path
 
 /-- `executingWorkers[w]++; lastOperationStarted = now`; `fresh i` = the worker was not yet in
 `i.executingWorkers` (a task may have operations in several invocations with common ancestors). -/
-def incrementExecutingWorkersCount (now : Nat) (fresh : Inv → Bool) : List Nat → Inv → Inv :=
-  rekey fun i => (i.setExec (i.exec + if fresh i then 1 else 0)).setStarted now
+def incrementExecutingWorkersCount (legacyNoRefresh : Bool) (now : Nat) (fresh : Inv → Bool) : List Nat → Inv → Inv :=
+  rekey legacyNoRefresh fun i => (i.setExec (i.exec + if fresh i then 1 else 0)).setStarted now
 
 /-- `executingWorkers[w]--` (entry deleted at zero: `last i`); `lastOperationCompletion = now`. -/
-def decrementExecutingWorkersCount (now : Nat) (last : Inv → Bool) : List Nat → Inv → Inv :=
-  rekey fun i => (i.setExec (i.exec - if last i then 1 else 0)).setCompleted now
+def decrementExecutingWorkersCount (legacyNoRefresh : Bool) (now : Nat) (last : Inv → Bool) : List Nat → Inv → Inv :=
+  rekey legacyNoRefresh fun i => (i.setExec (i.exec - if last i then 1 else 0)).setCompleted now
 
 /-! ### parking (lines 3022-3035) and `worker.dequeue` (lines 2768-2780) -/
 
@@ -178,8 +182,8 @@ inductive Update where
 def Update.apply : Update → Inv → Inv
   | .enqueue path o, t => Fair.enqueue path o t
   | .removeQueued path idx, t => Fair.removeQueued path idx t
-  | .increment path now fresh, t => incrementExecutingWorkersCount now fresh path t
-  | .decrement path now last, t => decrementExecutingWorkersCount now last path t
+  | .increment path now fresh, t => incrementExecutingWorkersCount false now fresh path t
+  | .decrement path now last, t => decrementExecutingWorkersCount false now last path t
   | .park path w, t => Fair.park w path t
   | .unpark path idx, t => Fair.unpark idx path t
   | .create path k now, t => createInvocation k now path t
